@@ -587,6 +587,69 @@ fn check_iter<T: Ord + Clone + Debug>(cx: &mut Ctx, kind: &str, input: &[T], lis
             if cx.sample {
                 cx.rep.sample(base().set("listed", trunc(format!("{:?}", got), 500)).set("expected_len", list.len()));
             }
+            // the same listing through the standard adaptors, also on an iterator that has already been advanced: what is
+            // left must always be the remaining arrangements, in order (nothing is demanded after the iterator returned None)
+            if got.as_slice() == list && list.len() <= 800 {
+                let n = list.len();
+                let salt = list.len() * 7 + input.len();
+                let k = salt % (n + 1);
+                let j = salt % 3;
+                let inp = input.to_vec();
+                let r = catch(|| {
+                    let mut bad: Vec<String> = Vec::new();
+                    let mut it = lib!(iter_permutations(inp.clone()));
+                    for _ in 0..k {
+                        lib!(it.next());
+                    }
+                    if k + j < n {
+                        let x = lib!(it.nth(j));
+                        if x.as_ref() != list.get(k + j) {
+                            bad.push(format!("after {} next() calls nth({}) gave {:?}, want {:?}", k, j, x, list.get(k + j)));
+                        }
+                    }
+                    let stepped: Vec<Vec<T>> = lib!(iter_permutations(inp.clone()).step_by(2).take(n + 2).collect());
+                    let want_stepped: Vec<Vec<T>> = list.iter().step_by(2).cloned().collect();
+                    if stepped != want_stepped {
+                        bad.push(format!("step_by(2) lists {} arrangements, want {} (every second one)", stepped.len(), want_stepped.len()));
+                    }
+                    let skipped: Vec<Vec<T>> = lib!(iter_permutations(inp.clone()).skip(k).take(n + 2).collect());
+                    if skipped.as_slice() != &list[k.min(n)..] {
+                        bad.push(format!("skip({}) lists {} arrangements, want {}", k, skipped.len(), n - k.min(n)));
+                    }
+                    let mut it2 = lib!(iter_permutations(inp.clone()));
+                    if n >= 2 {
+                        lib!(it2.next());
+                        let rest: Vec<Vec<T>> = lib!(it2.by_ref().skip(1).take(n + 2).collect());
+                        if rest.as_slice() != &list[2..] {
+                            bad.push(format!("after one next(), skip(1) lists {} arrangements, want {}", rest.len(), n - 2));
+                        }
+                    }
+                    let cnt = lib!(iter_permutations(inp.clone()).take(n + 2).count());
+                    if cnt != n {
+                        bad.push(format!("count() = {}, want {}", cnt, n));
+                    }
+                    let last = lib!(iter_permutations(inp.clone()).take(n + 2).last());
+                    if last.as_ref() != list.last() {
+                        bad.push(format!("last() = {:?}, want {:?}", last, list.last()));
+                    }
+                    bad
+                });
+                cx.rep.inc("iterator_adaptor_checks");
+                match r {
+                    Err(p) => cx.lib_panic("iter_permutations", &p, base(), replay),
+                    Ok(bad) => {
+                        if !bad.is_empty() {
+                            cx.rep.violation(
+                                format!("iter_permutations:{}", kind),
+                                base()
+                                    .set("what", "iter_permutations seen through a standard iterator adaptor (nth / step_by / skip / count / last) does not list each distinct arrangement exactly once in order")
+                                    .set("problems", Json::from(bad)),
+                                vec!["--case".into(), replay.to_string()],
+                            );
+                        }
+                    }
+                }
+            }
         }
     }
 }
